@@ -56,7 +56,7 @@ def run_campaigns(seed, seconds, plans=None, death_hook=True):
         for t in DICT:
             f.write('"%s"\n' % t.replace("\\", "\\\\").replace('"', '\\"'))
     plans = plans or [("query-text", "empty"), ("query-text", "tests"), ("query-struct", "empty"), ("pointer-text", "empty")]
-    per = max(10, int(seconds / 2))
+    per = max(10, int(seconds / 2 * float(os.environ.get("VF_BUDGET_SCALE", "1") or 1)))
     procs = []
     for mode, corpus in plans:
         cdir = os.path.join(scratch, "%s-%s" % (mode, corpus))
